@@ -30,6 +30,14 @@ GROUPS: Dict[str, tuple] = {
     "state": ("c14", ["reamber."]),
     "tables": ("c08", ["reamber.sm.SMMapMeta.SMMapChartTypes.", "reamber.quaver.QuaMapMeta.QuaMapMode.",
                        "reamber.osu.OsuSampleSet.OsuSampleSet."]),
+    # reading / writing a game's files: properties that write (or read back) a chart depend on that game's file rules
+    "io-osu": ("c01", ["reamber.osu."]),
+    "io-sm-read": ("c02", ["reamber.sm."]),
+    "io-sm-write": ("c03", ["reamber.sm."]),
+    "io-bms-read": ("c04", ["reamber.bms."]),
+    "io-bms-write": ("c05", ["reamber.bms."]),
+    "io-qua": ("c06", ["reamber.quaver."]),
+    "io-o2j": ("c07", ["reamber.o2jam."]),
     "stack": ("c12", ["reamber.base.Map.Map.Stacker", "reamber.base.Map.Map.stack", "reamber.base.MapSet.MapSet.Stacker",
                       "reamber.base.MapSet.MapSet.stack"]),
 }
@@ -117,7 +125,7 @@ def dep_insts(ctx, pid: str, entries: List[str], skip_groups=()) -> List[R.Inst]
     clo = _closure(ctx, entries)
     clo_files = {ctx.M.mods[ctx.M.funcs[q].mod].rel for q in clo if q in ctx.M.funcs}
     for g, hit in sorted(groups.items()):
-        if g in skip_groups:
+        if g in skip_groups or GROUPS[g][0] == pid.lower():
             continue
         home = GROUPS[g][0]
         mod = importlib.import_module(f"sa.props.{home}")
